@@ -101,6 +101,15 @@ Proof.
   destruct (ty =? 129); [injection H as <-; left; reflexivity|]. destruct (ty =? 130); [injection H as <-; right; reflexivity | discriminate].
 Qed.
 
+(* the limiting flag follows the override button alone *)
+Lemma input_step_limit s k :
+  limit_motion (fst (input_step s k)) =
+  match k with KLimitMotion Pressed => false | KLimitMotion Released => true | _ => limit_motion s end.
+Proof.
+  destruct k as [v|v|v|v|v|v|[|]|[|]|[|]|[|]|[|]|[|]]; cbn [input_step];
+    repeat match goal with |- context [if ?b then _ else _] => destruct b eqn:? end; cbn [fst limit_motion]; try reflexivity; congruence.
+Qed.
+
 Theorem c18_holds : forall c, c18_wf c = true -> c18_spec_ok c (c18_model c) = true.
 Proof.
   intros [m d ty num v] Hwf. unfold c18_wf in Hwf. cbn [i_mode i_state i_ty i_num i_value] in Hwf.
@@ -117,7 +126,12 @@ Proof.
   - destruct (input_step_ok (d_in d) code Hwf) as [Ho Hr].
     { destruct code; try exact I; exact Hk. }
     destruct (input_step (d_in d) code) as [s' o] eqn:Is. cbn [fst snd d_in] in *.
-    rewrite Ho, Hr. cbn [andb]. apply andb_true_intro. split.
+    rewrite Ho, Hr. cbn [andb]. apply andb_true_intro. split; [apply andb_true_intro; split|].
+    3: { (* the limiting flag *)
+      unfold limit_after, decode_event. cbn [i_mode i_state i_ty i_num i_value]. rewrite Et.
+      subst e. rewrite Gm. cbn [snd].
+      pose proof (input_step_limit (d_in d) code) as Hl. rewrite Is in Hl. cbn [fst] in Hl. rewrite Hl.
+      destruct code as [x|x|x|x|x|x|[|]|[|]|[|]|[|]|[|]|[|]]; apply Bool.eqb_reflx. }
     + unfold is_abort_press. cbn [i_ty i_num i_value].
       destruct ((ty =? 1) && (num =? 1) && (v =? 1)) eqn:Ab; [|reflexivity]. cbn [implb].
       assert (ty = 1 /\ num = 1 /\ v = 1) as (-> & -> & ->) by lia.
@@ -127,8 +141,10 @@ Proof.
     + destruct (128 <=? ty) eqn:Hi; [|reflexivity]. exfalso.
       pose proof (gp_map_init m (d_pad d) e) as Gi. subst e. cbn [ev_ty] in Gi.
       rewrite Gm in Gi. cbn [snd] in Gi. specialize (Gi (init_type ty t Et Hi)). discriminate Gi.
-  - cbn [out_ok d_in]. rewrite Hwf. cbn [andb]. apply andb_true_intro. split;
-      [|destruct (128 <=? ty); destruct (motion_lock (d_in d)); reflexivity].
+  - cbn [out_ok d_in]. rewrite Hwf. cbn [andb]. apply andb_true_intro. split; [apply andb_true_intro; split;
+      [|destruct (128 <=? ty); destruct (motion_lock (d_in d)); reflexivity] |].
+    2: { unfold limit_after, decode_event. cbn [i_mode i_state i_ty i_num i_value]. rewrite Et.
+         subst e. rewrite Gm. cbn [snd]. apply Bool.eqb_reflx. }
     unfold is_abort_press. cbn [i_ty i_num i_value].
     destruct ((ty =? 1) && (num =? 1) && (v =? 1)) eqn:Ab; [|reflexivity]. exfalso.
     assert (ty = 1 /\ num = 1 /\ v = 1) as (-> & -> & ->) by lia.
@@ -151,7 +167,7 @@ Proof.
   destruct (etype_of ty) eqn:E; [|congruence].
   assert (W : rpm_ok (engine_rpm (d_in d)) && (-32768 <=? v) && (v <? 32768) && (0 <=? num) && (num <? 256) && true = true) by (rewrite Hd; lia).
   specialize (H W). destruct (daemon_step m d ty num v) as [[d' o]|]; [|exact Hd].
-  apply andb_prop in H as [H _]. apply andb_prop in H as [H _]. apply andb_prop in H as [_ H]. exact H.
+  apply andb_prop in H as [H _]. apply andb_prop in H as [H _]. apply andb_prop in H as [H _]. apply andb_prop in H as [_ H]. exact H.
 Qed.
 
 (* the command-line client: the six words in any letter case, nothing else *)
